@@ -5,6 +5,8 @@ CONSTANTS
   Three = {}
   SOps <- SOpsELE
   Cap = 2
+  Split = FALSE
+  Prefill = FALSE
   Locked = FALSE
   Export = FALSE
 VIEW View
